@@ -47,6 +47,16 @@ fn several(seed: u64, idx: u64) -> Out {
             }
         }
         loops.sort();
+        // input skips only where "the original input of layer a" is unambiguous: layer a's input
+        // is not the (accumulated) output of a layer inside another looped range - a is at or in
+        // front of the other range's first layer, or behind the layer after its last one
+        for i in 0..loops.len() {
+            let a = loops[i].1;
+            let clear = (0..loops.len()).filter(|j| *j != i).all(|j| a <= loops[j].1 || a > loops[j].0 + 1);
+            if clear && rng.chance(0.5) {
+                loops[i].3 = true;
+            }
+        }
     } else {
         let mut a = rng.range(0, 1);
         while a < n_eq && loops.len() < want {
